@@ -45,7 +45,7 @@ class Projection:
                 return (umax,)
             if not np.abs(diff) >= tolerance1:
                 break
-        if not np.isfinite(initparam):
+        if not np.isfinite(float(initparam)):
             return (umin, umax)
         return [initparam]
 
@@ -96,7 +96,8 @@ class Projection:
             tvalues |= set(newtvalues)
         tvalues = tuple(tvalues)
         tvalues = np.array(tvalues)
-        distances = [np.linalg.norm(point - curve(t)) for t in tvalues]
+        differences = (np.array(point - curve(t), dtype="float64") for t in tvalues)
+        distances = [np.linalg.norm(diff) for diff in differences]
         minimaldistance = np.min(distances)
         indexs = np.where(abs(distances - minimaldistance) < 1e-6)[0]
         tvalues = tvalues[indexs]
